@@ -452,6 +452,8 @@ def cacher_history(idx, stdlib, headers, between=None, recount_headers=None, ext
         state["phase"] = 2
         if not keep_memory:
             it.store["self.pathed_lines_and_headers"] = {}   # a new process: nothing in memory
+            for k in it.store.pop("__ctor_keys__", []):
+                it.store.pop(k, None)                           # (and whatever else the constructors set up is set up again)
         if monitor_first:
             m2 = it.call_function(fm, {"__pos__": [PATH]}, "self")
             r2 = it.call_function(fa, {"__pos__": [PATH]}, "self")
@@ -460,7 +462,7 @@ def cacher_history(idx, stdlib, headers, between=None, recount_headers=None, ext
             m2 = it.call_function(fm, {"__pos__": [PATH]}, "self")
         return r1, m1, r2, m2
 
-    it = Interp(idx, types={"self": "FileCacher", "self.cache": "Cache"}, inline_all={"FileCacher", "Cache"}, handlers=h, unknown_calls="residual")
+    it = Interp(idx, types={"self": "FileCacher", "self.cache": "Cache", "self.csvpaths": "CsvPaths", "self.cache.csvpaths": "CsvPaths"}, inline_all={"FileCacher", "Cache"}, handlers=h, unknown_calls="residual")
     # the owner runs with a non-default dialect: the cache must round-trip whatever the run's delimiter/quotechar are
     ps = it.run_program(program, {"self.pathed_lines_and_headers": {}, "self.csvpaths.delimiter": ";", "self.csvpaths.quotechar": "'",
                                   "self.cache.csvpaths.delimiter": ";", "self.cache.csvpaths.quotechar": "'"})
@@ -546,7 +548,7 @@ def r2(idx, rep):
             return self
 
     bad = None
-    for change in ("unchanged", "rewritten", "other dialect", "unchanged, same process", "rewritten, same process"):
+    for change in ("unchanged", "rewritten", "other dialect", "unchanged, same process", "rewritten, same process", "other dialect, same process"):
         def extra(fs, state):
             hx = {}
             for nm in ("os.stat", "os.path.getmtime", "os.path.getsize"):
@@ -566,7 +568,7 @@ def r2(idx, rep):
         def between(fs, state, it, change=change):
             if change.startswith("rewritten"):
                 state["changed"] = True
-            if change == "other dialect":
+            if change.startswith("other dialect"):
                 # the later process reads the same file with another delimiter / quotechar (a different CsvPaths configuration)
                 for k in ("self.csvpaths.delimiter", "self.cache.csvpaths.delimiter"):
                     it.store[k] = "|"
@@ -586,16 +588,19 @@ def r2(idx, rep):
         elif change == "other dialect" and (not recounted or r2_ != ["c", "d"]):
             bad = bad or ("the file was cached by a process reading it with delimiter ';' and quotechar \"'\"; a later process reading it with delimiter '|' is served that entry "
                           f"(headers {r2_!r}, counted again: {recounted}): its headers and line counts are the other dialect's, so warm and cold runs differ")
+        elif change == "other dialect, same process" and (not recounted or r2_ != ["c", "d"]):
+            bad = bad or ("the CsvPaths instance read the file with delimiter ';' and quotechar \"'\", then its delimiter was set to '|' and it read the file again: it is served "
+                          f"the first reading's entry (headers {r2_!r}, counted again: {recounted}), so its headers and line counts are the other dialect's")
         elif change == "rewritten" and (not recounted or r2_ != ["c", "d"]):
             bad = bad or ("the file at the cached path was rewritten (size 8 → 30, later modification time) and the cache still serves the earlier content's "
                           f"line counts and headers {r2_!r}: a run on the new content stops at the old line count and resolves #names against the old headers")
-    rep.check(bad is None, "R2", f"{fr.file}::cache entries are tied to the file's state", bad or "5 histories", K.where(cr, cr.node))
+    rep.check(bad is None, "R2", f"{fr.file}::cache entries are tied to the file's state", bad or "6 histories", K.where(cr, cr.node))
     # cache key: distinct paths (also with the same file name) get distinct keys; the same path the same key
     fn = idx.method("Cache", "_cache_name")
     keys = {}
     for pth, dl, qc in (("/a/x/data.csv", ",", '"'), ("/a/y/data.csv", ",", '"'), ("/a/x/data.csv", ",", '"'), ("data.csv", ",", '"'), ("/b/one.csv", ",", '"'),
                         ("/a/x/data.csv", "|", '"'), ("/a/x/data.csv", ",", "'")):
-        it = Interp(idx, types={"self": "Cache"}, handlers=stdlib, unknown_calls="error")
+        it = Interp(idx, types={"self": "Cache", "self.csvpaths": "CsvPaths"}, handlers=stdlib, unknown_calls="error")
         ps = it.run_all(fn, args={"filename": pth}, store={"self.csvpaths.delimiter": dl, "self.csvpaths.quotechar": qc})
         if len(ps) != 1 or ps[0].result[0] != "return":
             raise AnalysisError(f"Cache._cache_name not evaluable: {[p.result for p in ps]}")
